@@ -41,6 +41,17 @@ def plan(tier, seed):
         for be in (backends if r <= 1 else ["numpy"]):
             for c in S.all_cases(r, exact=True):
                 cases.append({"kind": "E2", "skel": c["skel"], "combo": c["combo"], "backend": be, "seed": seed})
+    # curated 3-deviation specs: one Gaussian-constrained scalar + one shapesys + one staterror (Gaussian and Poisson auxiliary entries interleaved)
+    if k2 < 3:
+        for sk in ("B1", "B2"):
+            mm = S.menu(sk)
+            fam = lambda pref: [i for i, it in enumerate(mm) if it[0].split("@")[0].split(":")[0] in pref]
+            for a in fam(("normsys", "lumi")):
+                for b in fam(("shapesys",)):
+                    for c_ in fam(("staterror",)):
+                        combo = tuple(sorted((a, b, c_)))
+                        if S.build(sk, combo) is not None:
+                            cases.append({"kind": "E2", "skel": sk, "combo": list(combo), "backend": "numpy" if (a + b + c_) % 3 else "jax", "seed": seed})
     for mn, grid in (("poi1", [400]), ("onoff", [20, 15])):
         for ts in ("qtilde", "q", "q0"):
             for nobs in ((44.0, 50.0, 58.0) if tier == "quick" else (40.0, 44.0, 50.0, 55.0, 58.0, 66.0)):
@@ -278,6 +289,26 @@ def e4(case):
                 issues.append(C.issue("C14:E4:mean", f"sample means {mean.tolist()} vs expected {exp.tolist()}", backend=be))
             if np.any(np.abs(var - exp) > 6 * exp * np.sqrt(2.0 / n + 1.0 / (n * exp))):
                 issues.append(C.issue("C14:E4:variance", f"sample variances {var.tolist()} vs expected {exp.tolist()}", backend=be))
+        # Gaussian-constrained auxiliary data (staterror widths != 1, a unit-width normsys): mean = parameter, standard deviation = constraint width
+        spec = {"channels": [{"name": "c", "samples": [
+            {"name": "sig", "data": [5.0, 6.0], "modifiers": [{"name": "mu", "type": "normfactor", "data": None}]},
+            {"name": "bkg", "data": [50.0, 40.0], "modifiers": [{"name": "st", "type": "staterror", "data": [5.0, 2.0]}, {"name": "ns", "type": "normsys", "data": {"lo": 0.9, "hi": 1.1}}]}]}]}
+        mg = pyhf.Model(spec, poi_name="mu")
+        vals = {"mu": [1.0], "ns": [0.4], "st": [0.95, 1.08]}
+        pv = C.tens(L.vector(mg.config, vals))
+        smp = np.asarray(tl.tolist(mg.make_pdf(pv).sample((n,))), dtype=float)
+        ncmp += 2
+        off = mg.config.nmaindata
+        for name in mg.config.auxdata_order:
+            k_ = mg.config.param_set(name).n_parameters
+            col = smp[:, off:off + k_]
+            off += k_
+            mean_ref = np.asarray(vals[name], dtype=float)
+            sig_ref = np.asarray([0.1, 0.05], dtype=float) if name == "st" else np.asarray([1.0])
+            if np.any(np.abs(col.mean(axis=0) - mean_ref) > 6 * sig_ref / np.sqrt(n)):
+                issues.append(C.issue("C14:E4:aux_mean", f"auxiliary data of {name}: mean {col.mean(axis=0).tolist()} vs parameter {mean_ref.tolist()}", backend=be))
+            if np.any(np.abs(col.std(axis=0) - sig_ref) > 6 * sig_ref / np.sqrt(2 * n)):
+                issues.append(C.issue("C14:E4:aux_width", f"auxiliary data of {name}: standard deviation {col.std(axis=0).tolist()} vs constraint width {sig_ref.tolist()}", backend=be))
     finally:
         C.reset_backend()
     return dict(issues=issues, nontrivial=True, outcome=digest([be, "smoke"]), comparisons=ncmp)
